@@ -9,6 +9,9 @@ import (
 	"strconv"
 	"strings"
 
+	"github.com/alpacahq/marketstore/v4/catalog"
+	"github.com/alpacahq/marketstore/v4/utils/io"
+
 	"verifharness/internal/catinst"
 	"verifharness/internal/cq"
 	"verifharness/internal/rng"
@@ -24,9 +27,10 @@ type c17In struct {
 	Ops []CatOp `json:"ops"`
 }
 
-var c17Syms = []string{"A", "B"}
+// names that are string prefixes of one another at the same level (A / AB, G / GH): the path index is keyed by path strings
+var c17Syms = []string{"A", "AB", "B"}
 var c17Tfs = []string{"1Min", "5Min"}
-var c17Grps = []string{"G", "H"}
+var c17Grps = []string{"G", "GH"}
 var c17Years = []int{2021, 2022, 2023}
 
 func c17Gen(r *rng.Rand, i int, tier string) interface{} {
@@ -81,6 +85,18 @@ func c17Gen(r *rng.Rand, i int, tier string) interface{} {
 		case k < 88:
 			op.Op = "destroy"
 			delete(live, key)
+			in.Ops = append(in.Ops, op)
+			// probe the survivors: a row in a year they do not have yet goes through GetSubDirectoryAndAddFile
+			if len(live) > 0 && r.Chance(70) {
+				ks := make([]string, 0, len(live))
+				for k2 := range live {
+					ks = append(ks, k2)
+				}
+				sort.Strings(ks)
+				k2 := ks[r.Intn(len(ks))]
+				in.Ops = append(in.Ops, CatOp{Op: "write", Key: k2, Years: []int{2030 + j, 2031 + j}, Schema: live[k2]})
+			}
+			continue
 		case k < 94:
 			op.Op = "restart"
 			op.Key = ""
@@ -172,6 +188,23 @@ func c17Run(raw json.RawMessage) (res Result, err error) {
 			res.Holds = false
 			res.Detail = fmt.Sprintf("after op %d (%s %q): %s", i, op.Op, op.Key, what)
 		}
+		// every listed bucket must be served: the path index (directMap) finds it, with the latest year a restart finds
+		if fresh, e := catalog.NewDirectory(inst.Root); e == nil || fresh != nil {
+			for _, k := range o.TBK {
+				tbk := io.NewTimeBucketKeyFromString(k)
+				a, ea := inst.Cat.GetLatestTimeBucketInfoFromKey(tbk)
+				b, eb := fresh.GetLatestTimeBucketInfoFromKey(tbk)
+				switch {
+				case ea != nil && eb == nil:
+					fail(fmt.Sprintf("bucket %s is listed and on disk, but GetLatestTimeBucketInfoFromKey fails on the running catalog: %v", k, ea))
+				case ea == nil && eb == nil && a.Year != b.Year:
+					fail(fmt.Sprintf("bucket %s: latest year %d on the running catalog, %d after a restart", k, a.Year, b.Year))
+				}
+			}
+		}
+		if !res.Holds {
+			return
+		}
 		if fmt.Sprint(o.TBK) != fmt.Sprint(dt) {
 			fail(fmt.Sprintf("catalog lists buckets %v, the disk has %v", o.TBK, dt))
 		} else if fmt.Sprint(o.Files) != fmt.Sprint(df) {
@@ -208,9 +241,9 @@ func init() {
 		ID:          "C17",
 		CoqRequire:  "Require Import MS.Corr.C17.",
 		CoqCaseType: "C17.case",
-		Rule: "4-12 requests over the key space {A,B} x {1Min,5Min} x {G,H} x years {2021,2022,2023,current}: create (DataService.Create), write of 1-3 rows " +
+		Rule: "4-12 requests over the key space {A,AB,B} x {1Min,5Min} x {G,GH} (names that are string prefixes of one another) x years {2021,2022,2023,current, fresh years after a destroy}: create (DataService.Create), write of 1-3 rows " +
 			"(WriteCSM: auto-create, new-year files, mismatching schema), destroy, restart (NewDirectory + new WAL/writer on the same root), query; after every " +
-			"request the catalog's buckets and year files are compared with a walk of the disk and with a fresh NewDirectory(root); distinct = distinct input; " +
+			"request the catalog's buckets and year files are compared with a walk of the disk and with a fresh NewDirectory(root), and GetLatestTimeBucketInfoFromKey of every listed bucket must succeed with the restart's latest year; distinct = distinct input; " +
 			"non-trivial = well-formed keys and >=2 successful mutating requests",
 		Gen: c17Gen,
 		Run: c17Run,
